@@ -59,6 +59,7 @@ func (e *Exec) initContractState(st *State) {
 		}
 		st.ghost[g.Name] = v
 	}
+	e.stableInvs(st, false, nil, "")
 	// vacuity probe: requires must be satisfiable
 	if len(e.fc.Requires) > 0 {
 		e.insts = append(e.insts, &Instance{Name: e.fname + "/cover/requires", Kind: "cover", Func: e.fname,
@@ -192,6 +193,8 @@ func h2instr(b *ssa.BasicBlock) ssa.Instruction { return b.Instrs[0] }
 // location / ghost variable the loop body may write.
 func (e *Exec) havocLoop(st *State, h *ssa.BasicBlock, li *loopInfo) {
 	fr := st.top()
+	st.quiet++
+	defer func() { st.quiet-- }()
 	for _, in := range h.Instrs {
 		phi, ok := in.(*ssa.Phi)
 		if !ok {
@@ -548,7 +551,7 @@ func (e *Exec) checkFrame(st *State, r *ssa.Return) {
 			}
 			if strings.HasPrefix(as.Field, "@") {
 				kind := as.Field[1:]
-				match := (kind == "list" && strings.HasPrefix(k, "list#")) || (kind == "map" && strings.HasPrefix(k, "M:")) ||
+				match := (kind == "rcancelled" && k == "recv#cancelled") || (kind == "rclosed" && k == "recv#closed") || (kind == "list" && strings.HasPrefix(k, "list#")) || (kind == "map" && strings.HasPrefix(k, "M:")) || (kind == "cancel" && k == "ctx#cancelled") ||
 					(kind == "chan" && strings.HasPrefix(k, "chan#")) || (kind == "cell" && strings.HasPrefix(k, "C:")) || (kind == "elems" && strings.HasPrefix(k, "E:"))
 				if !match {
 					continue
@@ -556,7 +559,7 @@ func (e *Exec) checkFrame(st *State, r *ssa.Return) {
 				for _, old := range []bool{false, true} {
 					ctx := &evalCtx{st: st, scope: map[string]Val{}, fr: fr, entryScope: e.entryParams(), paramsFirst: true, inOld: old}
 					if ov, err := e.evalTop(ctx, as.Obj, nil); err == nil {
-						allowed = append(allowed, ov.T[0])
+						allowed = append(allowed, ov.T[len(ov.T)-1])
 					} else if !old {
 						whole = true
 					}
